@@ -260,15 +260,15 @@ func (r *Rig) SentBy(from int) []*PacketEvent {
 
 // Snapshot of everything observable about V.
 type Snapshot struct {
-	View    memberlist.VerifView
-	Members map[string]memberInfo
-	Events  int
-	Queued  []memberlist.VerifQueuedMsg
-	Health  int
-	Msgs    int
-	Merged  int
+	View      memberlist.VerifView
+	Members   map[string]memberInfo
+	Events    int
+	Queued    []memberlist.VerifQueuedMsg
+	Health    int
+	Msgs      int
+	Merged    int
 	Conflicts int
-	Susp    map[string]memberlist.VerifSuspicionInfo
+	Susp      map[string]memberlist.VerifSuspicionInfo
 }
 
 func (r *Rig) Snap() Snapshot {
